@@ -202,6 +202,12 @@ def pred_dispatch(prog: Program) -> RuleResult:
     return r
 
 
+def _operands_never_flagged(prog: Program) -> bool:
+    from .c01 import ep_operand
+
+    return not any(not o.ok for o in ep_operand(prog).obligations)
+
+
 def pred_once(prog: Program) -> RuleResult:
     r = RuleResult("PRED-ONCE", "one keyword invocation per binding; predicate instances are called; falsity = not bool(result)", floor=5)
     var = prog.cls("symbolic.Variable")
@@ -240,8 +246,66 @@ def pred_once(prog: Program) -> RuleResult:
     ok = False
     if len(rets) == 1 and len(rets[0].value.args) >= 2:
         flag = rets[0].value.args[1]
-        ok = isinstance(flag, ast.UnaryOp) and isinstance(flag.op, ast.Not) and src(flag.operand) in (f"bool({g.params[1]})", g.params[1])
+
+        def is_truth_of_result(e):
+            return isinstance(e, ast.UnaryOp) and isinstance(e.op, ast.Not) and src(e.operand) in (f"bool({g.params[1]})", g.params[1])
+
+        if isinstance(flag, ast.Name):
+            # a local: every value it gets is `not bool(result)` (in condition position, EP-OPERAND of C01) or the constant False (as an operand)
+            vals = [x.value for x in walk_local(g.node) if isinstance(x, ast.Assign) and any(isinstance(t, ast.Name) and t.id == flag.id for t in x.targets)]
+            leaves = []
+            for v in vals:
+                todo = [v]
+                while todo:
+                    y = todo.pop()
+                    if isinstance(y, ast.IfExp):
+                        todo += [y.body, y.orelse]
+                    else:
+                        leaves.append(y)
+            ok = any(is_truth_of_result(v) for v in leaves) and all(is_truth_of_result(v) or (isinstance(v, ast.Constant) and v.value is False) for v in leaves)
+        else:
+            ok = is_truth_of_result(flag)
     r.check(ok, "Variable._process_output#truth", site(g), src(rets[0].value) if rets else "", "is_false = not bool(result)", "the emitted falsity is not `not bool(result)` of the invocation")
+    # every value an argument expression produces reaches the callable: an argument's result is a value, not a condition, so the
+    # loops that enumerate argument values may not filter on its truth flag (a nested call returning 0 / False / '' is still an argument)
+    from ..callgraph import self_closure as _sc
+
+    gen = prog.method(var.qual, "_generate_combinations_for_child_vars_values_", inherited=False)
+    if gen is None:
+        raise AnalysisError("PRED-ONCE: Variable._generate_combinations_for_child_vars_values_ vanished")
+    fs, _ = _sc(prog, var.qual, gen, False)
+    n_loops = 0
+    for h in sorted(fs, key=lambda x: x.qual):
+        single = {}
+        for x in walk_local(h.node):
+            if isinstance(x, ast.Assign) and len(x.targets) == 1 and isinstance(x.targets[0], ast.Name):
+                single.setdefault(x.targets[0].id, []).append(x.value)
+        for lp in [x for x in walk_local(h.node) if isinstance(x, ast.For)]:
+            it = lp.iter
+            if isinstance(it, ast.Name) and len(single.get(it.id, [])) == 1:
+                it = single[it.id][0]
+            if not any(isinstance(c, ast.Call) and call_name(c) == "_evaluate__" for c in ast.walk(it)):
+                continue
+            n_loops += 1
+            why = None
+            if not (isinstance(it, ast.Call) and call_name(it) == "_evaluate__"):
+                why = f"the values are taken from {src(it)[:60]}, not from the evaluation itself"
+            tv = {x.id for x in ast.walk(lp.target) if isinstance(x, ast.Name)}
+            for t in [x for x in ast.walk(lp) if isinstance(x, (ast.If, ast.IfExp, ast.comprehension))]:
+                tests = [t.test] if not isinstance(t, ast.comprehension) else t.ifs
+                for tt in tests:
+                    if any(isinstance(a, ast.Attribute) and a.attr in ("is_true", "is_false", "_is_false_") and isinstance(a.value, ast.Name) and a.value.id in tv for a in ast.walk(tt)):
+                        why = why or f"results are tested on {src(tt)[:50]}"
+            # a filter on the truth flag only matters if an argument can arrive flagged false: EP-OPERAND (C01, also run for this
+            # property) decides that operand results are never flagged from the truth of their value
+            if why is not None and _operands_never_flagged(prog):
+                r.ok(f"{h.short}#every-argument-value", site(h, lp), src(lp.iter)[:80], f"{why}, but no operand result can be flagged false (EP-OPERAND holds): nothing is dropped")
+                continue
+            r.check(why is None, f"{h.short}#every-argument-value", site(h, lp), src(lp.iter)[:80], "every result of the argument expression is handed on",
+                    f"{why}: a binding whose argument value is falsy (a nested symbolic call returning 0, False or an empty collection) never reaches the callable, "
+                    f"although the concrete call is defined for it")
+    if n_loops == 0:
+        raise AnalysisError("PRED-ONCE: no loop over argument evaluations found in the argument generation closure")
     # result carries bindings of all arguments
     upd = [c for c in calls_in(g.node) if call_name(c) == "update"]
     r.check(bool(upd), "Variable._process_output#bindings", site(g), "", "argument bindings are merged into the result", "argument bindings are dropped from the result")
@@ -281,4 +345,7 @@ def pred_names(prog: Program) -> RuleResult:
 
 
 def run(prog: Program, tier: str) -> List[RuleResult]:
-    return [pred_align(prog), pred_dispatch(prog), pred_once(prog), pred_names(prog)]
+    from .c01 import ep_operand
+
+    # the truth a symbolic call contributes: flagged from its result only in condition position (shared with C01)
+    return [pred_align(prog), pred_dispatch(prog), pred_once(prog), pred_names(prog), ep_operand(prog)]
